@@ -5,7 +5,9 @@ package main
 // driven by a deterministic schedule:
 //
 //   request j has a body (unique pattern: salt, length), a number f_j of first attempts that FAIL
-//   AFTER the backend has read the body, and a response (unique pattern: salt, length).
+//   AFTER the backend has read the body, and a response (unique pattern: salt, length). (A LATE
+//   request, Late = L > 0, only starts when gate L opens, its attempt k belonging to phase L+k: the
+//   description below is for L = 0; used by the C05 cases of c05_conc.go.)
 //   phase p = 1 .. max f + 1:   H_p = { j : f_j >= p }  are held by the backend in attempt p (body
 //   already read), while F_p = { j : f_j = p-1 } are answered: their responses are relayed through
 //   copyResponse/pooledIoCopy, all readers of the phase holding a pooled 32 KiB buffer at the same
@@ -55,6 +57,13 @@ type c04CReq struct {
 	RSalt   int  `json:"rsalt"`
 	RLen    int  `json:"rlen"`
 	RSeg    int  `json:"rseg,omitempty"` // scripted: the backend body reader returns at most RSeg bytes per Read (0: as many as fit)
+	// Late = L > 0: the request only STARTS once the attempts held in phase L have been failed (gate L):
+	// its body is buffered, and its attempt k runs in phase L+k, while those requests wait to retry
+	Late int `json:"late,omitempty"`
+	// Yield: a late request lets the other runnable goroutines go first that many times (runtime.Gosched)
+	// before it starts, so that with one P the failed attempts have been wound up (body closed, retry
+	// loop asleep for try_interval) when it buffers its body
+	Yield int `json:"yield,omitempty"`
 }
 
 type c04Conc struct {
@@ -63,6 +72,8 @@ type c04Conc struct {
 	GC    bool      `json:"gc,omitempty"`    // false: GC switched off in the child
 	Wire  bool      `json:"wire,omitempty"`  // real http.Transport + loopback backends (accept, read, drop)
 	Flush bool      `json:"flush,omitempty"` // FlushInterval 1ms (maxLatencyWriter in front of the client) instead of 0
+	Block string    `json:"block,omitempty"` // further lines of the proxy block (C05: fail_timeout / max_fails)
+	TryD  string    `json:"tryd,omitempty"`  // try_duration (default 120s: far beyond any schedule)
 	Reqs  []c04CReq `json:"reqs"`
 }
 
@@ -156,8 +167,8 @@ type c04Brain struct {
 func c04NewBrain(in *c04Conc) *c04Brain {
 	maxf := 0
 	for _, q := range in.Reqs {
-		if q.Fails > maxf {
-			maxf = q.Fails
+		if q.Late+q.Fails > maxf {
+			maxf = q.Late + q.Fails
 		}
 	}
 	b := &c04Brain{in: in, att: make([][]c04CAtt, len(in.Reqs))}
@@ -168,10 +179,10 @@ func c04NewBrain(in *c04Conc) *c04Brain {
 		b.arriveCh[p], b.gate[p], b.readCh[p] = make(chan struct{}), make(chan struct{}), make(chan struct{})
 	}
 	for _, q := range in.Reqs {
-		for p := 1; p <= q.Fails; p++ {
+		for p := q.Late + 1; p <= q.Late+q.Fails; p++ {
 			b.nH[p]++
 		}
-		b.nF[q.Fails+1]++
+		b.nF[q.Late+q.Fails+1]++
 	}
 	for p := 0; p <= n; p++ {
 		if b.nH[p] == 0 {
@@ -205,25 +216,26 @@ func (b *c04Brain) attempt(id, target int, body []byte, cl int64, chunked bool) 
 	b.mu.Lock()
 	b.att[id] = append(b.att[id], c04CAtt{Target: target, Body: c04Observe(body, q.Salt, q.Len, b.in), CL: cl, Chunked: chunked})
 	k := len(b.att[id])
-	if k > q.Fails+1 || k >= len(b.gate) {
+	ph := q.Late + k // the phase this attempt belongs to
+	if k > q.Fails+1 || ph >= len(b.gate) {
 		b.mu.Unlock()
 		return false // more attempts than scripted: answered, the count is judged
 	}
 	if k <= q.Fails {
-		b.arrived[k]++
-		if b.arrived[k] == b.nH[k] {
-			close(b.arriveCh[k])
+		b.arrived[ph]++
+		if b.arrived[ph] == b.nH[ph] {
+			close(b.arriveCh[ph])
 		}
 	}
 	b.mu.Unlock()
 	if k <= q.Fails {
-		if !c04Wait(b.gate[k], 40*time.Second) {
+		if !c04Wait(b.gate[ph], 40*time.Second) {
 			b.setStuck(fmt.Sprintf("request %d attempt %d: gate never opened", id, k))
 		}
 		return true
 	}
-	if !c04Wait(b.arriveCh[k], 40*time.Second) {
-		b.setStuck(fmt.Sprintf("request %d attempt %d: the held requests of phase %d never arrived", id, k, k))
+	if !c04Wait(b.arriveCh[ph], 40*time.Second) {
+		b.setStuck(fmt.Sprintf("request %d attempt %d: the held requests of phase %d never arrived", id, k, ph))
 	}
 	return false
 }
@@ -231,7 +243,7 @@ func (b *c04Brain) attempt(id, target int, body []byte, cl int64, chunked bool) 
 // readerBarrier: every response body reader of a phase waits (bounded) for the others, so that all
 // of them hold their pooled copy buffer at the same time.
 func (b *c04Brain) readerBarrier(id int) {
-	p := b.in.Reqs[id].Fails + 1
+	p := b.in.Reqs[id].Late + b.in.Reqs[id].Fails + 1
 	b.mu.Lock()
 	b.readers[p]++
 	if b.readers[p] == b.nF[p] {
@@ -287,7 +299,11 @@ func (t *c04ConcTransport) RoundTrip(r *http.Request) (*http.Response, error) {
 			chunked = true
 		}
 	}
-	if t.b.attempt(id, target, body, r.ContentLength, chunked) {
+	failed := t.b.attempt(id, target, body, r.ContentLength, chunked)
+	if r.Body != nil {
+		r.Body.Close() // "RoundTrip must always close the body, including on errors" (http.RoundTripper)
+	}
+	if failed {
 		return nil, errors.New("scripted backend failure after reading the body")
 	}
 	q := t.b.in.Reqs[id]
@@ -397,7 +413,11 @@ func c04ConcRun(in *c04Conc) c04ConcOut {
 		servers = append(servers, srv)
 		targets = append(targets, srv.URL)
 	}
-	text := "proxy / " + strings.Join(targets, " ") + " {\n  policy round_robin\n  try_duration 120s\n  try_interval 1ms\n}\n"
+	tryD := in.TryD
+	if tryD == "" {
+		tryD = "120s"
+	}
+	text := "proxy / " + strings.Join(targets, " ") + " {\n  policy round_robin\n  try_duration " + tryD + "\n  try_interval 1ms\n" + in.Block + "}\n"
 	ups, err := c04Upstreams(text)
 	if err != nil || len(ups) != 1 {
 		out.Setup = fmt.Sprint("setup error: ", err)
@@ -430,6 +450,12 @@ func c04ConcRun(in *c04Conc) c04ConcOut {
 		}
 		go func(i int, req *http.Request) {
 			defer close(done[i])
+			if l := in.Reqs[i].Late; l > 0 && l < len(brain.gate) {
+				c04Wait(brain.gate[l], 60*time.Second) // a late request starts right after the failures of phase l
+				for y := 0; y < in.Reqs[i].Yield; y++ {
+					runtime.Gosched()
+				}
+			}
 			rec := httptest.NewRecorder()
 			ret := -1
 			func() {
@@ -450,13 +476,13 @@ func c04ConcRun(in *c04Conc) c04ConcOut {
 	}
 	maxf := 0
 	for _, q := range in.Reqs {
-		if q.Fails > maxf {
-			maxf = q.Fails
+		if q.Late+q.Fails > maxf {
+			maxf = q.Late + q.Fails
 		}
 	}
 	for ph := 1; ph <= maxf+1; ph++ {
 		for i, q := range in.Reqs {
-			if q.Fails == ph-1 {
+			if q.Late+q.Fails == ph-1 {
 				if !c04Wait(done[i], 60*time.Second) {
 					brain.setStuck(fmt.Sprintf("request %d (answered in phase %d) did not finish", i, ph))
 				}
